@@ -155,6 +155,8 @@ class Interp(object):
             e = st.exc
             if isinstance(e, ast.Call):
                 e = e.func
+            if e is None and getattr(self, "_handling", None) is not None:
+                raise Raised(self._handling.cls, st)      # bare `raise` inside a handler: the exception being handled
             raise Raised(unparse(e) if e is not None else "<reraise>", st)
         if isinstance(st, ast.Delete):
             for t in st.targets:
@@ -176,6 +178,28 @@ class Interp(object):
                 else:
                     raise Refuse(st, "del target")
             return
+        if isinstance(st, ast.Try):
+            try:
+                try:
+                    self.block(st.body, env)
+                except Raised as e:
+                    for h in st.handlers:
+                        if self._handler_catches(h, e.cls):
+                            if h.name:
+                                env[h.name] = e.cls
+                            saved, self._handling = getattr(self, "_handling", None), e
+                            try:
+                                self.block(h.body, env)
+                            finally:
+                                self._handling = saved
+                            break
+                    else:
+                        raise
+                else:
+                    self.block(st.orelse, env)
+            finally:
+                self.block(st.finalbody, env)
+            return
         if isinstance(st, ast.Pass):
             return
         if isinstance(st, ast.Break):
@@ -187,6 +211,22 @@ class Interp(object):
                 raise Raised("AssertionError", st)
             return
         raise Refuse(st, "statement kind %s outside the evaluator's grammar" % type(st).__name__)
+
+    _HIER = {"IndexError": ("LookupError",), "KeyError": ("LookupError",), "UnicodeDecodeError": ("UnicodeError", "ValueError"), "UnicodeError": ("ValueError",),
+             "socket.timeout": ("OSError", "socket.error", "IOError"), "socket.error": ("OSError", "IOError"), "IOError": ("OSError",), "EOFError": (),
+             "ZeroDivisionError": ("ArithmeticError",), "OverflowError": ("ArithmeticError",)}
+
+    def _handler_catches(self, h, cls):
+        if h.type is None:
+            return True
+        names = [unparse(x) for x in (h.type.elts if isinstance(h.type, ast.Tuple) else [h.type])]
+        if any(n in ("Exception", "BaseException") or n == cls or n.split(".")[-1] == str(cls).split(".")[-1] for n in names):
+            return True
+        if any(n in self._HIER.get(cls, ()) for n in names):
+            return True
+        if cls in self._HIER or all(n in self._HIER for n in names):
+            return False
+        raise Refuse(h, "cannot decide whether `except %s` catches %s" % (", ".join(names), cls))
 
     def bind(self, t, v, env):
         if isinstance(t, ast.Name):
